@@ -281,11 +281,23 @@ def run_case(cfg):
             # the same numbers in a different memory layout
             perm = list(range(rank))[::-1]
             variants.append(("strided", y.permute(perm).contiguous().permute(perm)))
+        if gi == 0 and cfg.get("plane", 0) == 0:
+            # the same numbers as samples of another dtype than the grid: complex (times 1 + 0.5j; cumsum and
+            # integrate are linear in y) and, on a float32 grid, float64
+            cdt = torch.complex128 if dtype == torch.float64 else torch.complex64
+            variants.append(("cplx", y.to(cdt) * (1.0 + 0.5j)))
+            if dtype == torch.float32:
+                variants.append(("wide", y.to(torch.float64)))
         for vname, yy in variants:
             oc = call(sq.cumsum, yy, dim=dim)
             oi = call(sq.integrate, yy, dim=dim, keepdim=keepdim)
             nexec += 2
             for op, oo, want in (("cumsum", oc, yshape), ("integrate", oi, ishape)):
+                if oo.exc is not None and vname in ("cplx", "wide"):
+                    # samples of another dtype than the grid may be REJECTED (the spline classes do); only a result
+                    # that is returned has to be right
+                    obs["other_dtype_samples:" + vname] = "rejected"
+                    continue
                 if oo.exc is not None:
                     add("exception:%s" % oo.exc_sig, {"op": op}, op=op, stage="call")
                     if op == "cumsum":
@@ -310,7 +322,19 @@ def run_case(cfg):
                             ok_i = False
                         continue
                     val = val.reshape(want)
-                if val.dtype != dtype:
+                if vname == "cplx":
+                    if not val.is_complex():
+                        add("complex-samples-give-real-result:%s" % op, {"got": str(val.dtype)}, op=op)
+                        continue
+                    val = val / (1.0 + 0.5j)
+                    if float(val.imag.abs().max()) > tol * 3.0 if val.numel() else False:
+                        add("not-linear-in-complex-samples:%s" % op, {"max_imag": float(val.imag.abs().max())}, op=op)
+                    val = val.real
+                elif vname == "wide":
+                    if val.dtype != torch.float64:
+                        add("dtype-mismatch:%s" % op, {"got": str(val.dtype), "samples": "float64", "grid": "float32"},
+                            op=op)
+                elif val.dtype != dtype:
                     add("dtype-mismatch:%s" % op, {"got": str(val.dtype)}, op=op)
                 v64 = val.detach().to(torch.float64)
                 if op == "cumsum":
